@@ -171,6 +171,15 @@ def cases(c):
                 dcl['c'] = [float(np.real(cr)), float(np.imag(cr))]
             out.append(dcl)
             i += 1
+    # nearly predictable records at small amplitude (tone + noise at -110 dB, c = 1e-3): a valid but tiny prediction
+    # error power (~1e-17) must not be mistaken for a non-positive one - an estimator that accepts x accepts c*x
+    for j, (N, order, cplx) in enumerate([(40, 2, 1), (64, 3, 1), (32, 2, 0), (48, 4, 0), (56, 1, 1), (36, 3, 1)]):
+        base = {'cplx': cplx, 'N': N, 'kind': 'tones', 'snr_db': 110.0, 'j': j, 'c': [1e-3, 0.0], 'exc_only': True,
+                'directed': True}
+        out.append(dict(base, form='function', fn='arburg', p={'order': order, 'criteria': None}))
+        out.append(dict(base, form='function', fn='minvar', p={'order': order + 1, 'NFFT': 64, 'fs': 1.0}))
+        out.append(dict(base, form='class', cls='pburg', p={'order': order}, NFFT=64, fs=1.0, reuse=None))
+        out.append(dict(base, form='class', cls='pminvar', p={'order': order + 1}, NFFT=64, fs=1.0, reuse=None))
     # low-power records through the adaptive multitaper (its stop rule must scale with the record power):
     # amplitude 0.1, c = 1e-3, default and long NFFT
     for j, (N, NFFT, cplx) in enumerate([(32, None, 0), (48, 1024, 1), (64, 1024, 0), (40, None, 1), (24, 512, 0), (72, 2048, 1)]):
@@ -299,7 +308,10 @@ def decision_margin_ok(d, x):
 def run_case(c, d):
     cplx = bool(d['cplx'])
     cc = complex(d['c'][0], d['c'][1]) if cplx else float(d['c'][0])
-    x = gen.data({'kind': d['kind'], 'N': d['N'], 'cplx': cplx and not d.get('line')}, c.rng(d, 'x'))
+    dd = {'kind': d['kind'], 'N': d['N'], 'cplx': cplx and not d.get('line')}
+    if 'snr_db' in d:
+        dd.update(snr_db=d['snr_db'], K=1)
+    x = gen.data(dd, c.rng(d, 'x'))
     if np.asarray(x).dtype.kind == 'i':
         x = x.astype(float)
     if d.get('amp'):
